@@ -424,6 +424,11 @@ def run(ck):
     proofs_ok = ck.coq_props(extra_targets=["Extract/ExtractDecode.vo"])
     bindir = ck.cargo_build(["decode"])
     impl = os.path.join(bindir, "decode")
+    if os.environ.get("C10_DECODE_BIN"):
+        # development aid: a `decode` binary built against a private copy of /repo (mutation
+        # experiments without touching the shared working tree)
+        impl = os.environ["C10_DECODE_BIN"]
+        ck.notes.append("implementation binary overridden by C10_DECODE_BIN=" + impl)
     model = ck.ocaml_build("decode_model", "decode_model.ml", "decode_driver.ml")
     enc_names = ck.run_lines(impl, [], ["N"], shards=1)[0].split()
     if len(enc_names) < 39:
